@@ -33,7 +33,7 @@ theorem worker_enabled (s : S) (hG : Good s) (hc : s.emptyAdds = 0) (hsz : 0 < s
   omega
 
 /-- in a quiescent state of an in-contract execution every Add call has returned (or panicked) -/
-theorem quiescent_adders (s : S) (hG : Good s) (hc : s.emptyAdds = 0) (hsz : 0 < s.size) (hq : Quiescent s)
+theorem quiescent_adders (s : S) (hG : Good s) (hc : s.emptyAdds = 0) (hsz : 0 < s.size) (hq : QuiescentQ s)
     (i : Nat) (a : Adder) (ha : s.adders[i]? = some a) : a.pc = .done ∨ a.pc = .panicked := by
   apply Classical.byContradiction
   intro hnd
@@ -84,7 +84,7 @@ theorem quiescent_adders (s : S) (hG : Good s) (hc : s.emptyAdds = 0) (hsz : 0 <
       exact this hnone
 
 /-- … and no loop worker exists -/
-theorem quiescent_worker (s : S) (hG : Good s) (hc : s.emptyAdds = 0) (hsz : 0 < s.size) (hq : Quiescent s) :
+theorem quiescent_worker (s : S) (hG : Good s) (hc : s.emptyAdds = 0) (hsz : 0 < s.size) (hq : QuiescentQ s) :
     s.wpc = .idle := by
   apply Classical.byContradiction
   intro hni
@@ -112,20 +112,31 @@ theorem quiescent_worker (s : S) (hG : Good s) (hc : s.emptyAdds = 0) (hsz : 0 <
     exact this (hq (.adder j) rfl)
   · exact worker_enabled s hG hc hsz false false hni hlock hnone
 
-/-- … nor tail workers or Close calls in flight -/
-theorem quiescent_counts (s : S) (hq : Quiescent s) :
-    s.tRecheck = 0 ∧ s.tRun = 0 ∧ s.tSpawn = 0 ∧ s.tCas = 0 ∧
-    s.cCas = 0 ∧ s.cState = 0 ∧ s.cTrig = 0 ∧ s.cStore = 0 := by
+theorem quiescentQ_of_quiescent (s : S) (hq : Quiescent s) : QuiescentQ s := by
+  intro a ha
+  apply hq
+  cases a <;> simp_all [Act.isQueue, Act.isEnv]
+
+/-- … nor tail workers -/
+theorem quiescent_tails (s : S) (hq : QuiescentQ s) :
+    s.tRecheck = 0 ∧ s.tRun = 0 ∧ s.tSpawn = 0 ∧ s.tCas = 0 := by
   have h1 := hq (.tail .recheck) rfl
   have h2 := hq (.tail .run) rfl
   have h3 := hq (.tail .spawn) rfl
   have h4 := hq (.tail .cas) rfl
+  simp only [step, stepTail] at h1 h2 h3 h4
+  refine ⟨?_, ?_, ?_, ?_⟩ <;> apply Classical.byContradiction <;> intro hne <;> simp [hne] at * <;>
+    (repeat' split at *) <;> simp_all
+
+/-- … nor Close calls in flight -/
+theorem quiescent_closers (s : S) (hq : Quiescent s) :
+    s.cCas = 0 ∧ s.cState = 0 ∧ s.cTrig = 0 ∧ s.cStore = 0 := by
   have h5 := hq (.closer .cas) rfl
   have h6 := hq (.closer .state) rfl
   have h7 := hq (.closer .trig) rfl
   have h8 := hq (.closer .store) rfl
-  simp only [step, stepTail, stepCloser] at h1 h2 h3 h4 h5 h6 h7 h8
-  refine ⟨?_, ?_, ?_, ?_, ?_, ?_, ?_, ?_⟩ <;> apply Classical.byContradiction <;> intro hne <;> simp [hne] at * <;>
+  simp only [step, stepCloser] at h5 h6 h7 h8
+  refine ⟨?_, ?_, ?_, ?_⟩ <;> apply Classical.byContradiction <;> intro hne <;> simp [hne] at * <;>
     (repeat' split at *) <;> simp_all
 
 end Netpoll.Shard
